@@ -1,5 +1,6 @@
 """pyvc.harness -- symbolic evaluator of the harness language (see pyvc.api)."""
 from __future__ import annotations
+from .core import forall
 from .core import (z3, PyVal, A, C, VABSENT, VNONE, StringSort, IntSort, BoolSort, RealSort, SeqPV, mk_bool, mk_int, mk_float,
                    mk_str, mk_bytes, mk_list, mk_dict, simp, is_tag, head_tag)
 from .values import Unsupported, PathKilled, PyRaise, SVal, HObj, HDict, HList, HSet, Foreign, Closure
@@ -85,7 +86,7 @@ def install(cfg):
     def sym_choice(interp, name, options):
         opts = interp.iter_concrete(B.container(interp, options))
         x = z3.Int(name)
-        _record_input(interp, name, "choice", x)
+        _record_input(interp, name, "choice", x, len(opts))
         i = interp.ctx.choose([x == j for j in range(len(opts))])
         return opts[i]
 
@@ -168,7 +169,7 @@ def install(cfg):
         body = disj(parts)
         pats = [g.pattern] if g.pattern is not None else []
         if is_all:
-            return boolval(interp, z3.ForAll([g.bv], z3.Implies(g.member, body), patterns=pats))
+            return boolval(interp, forall([g.bv], z3.Implies(g.member, body), patterns=pats))
         return boolval(interp, z3.Exists([g.bv], z3.And(g.member, body)))
 
     @cfg.stub(api.forall_keys)
@@ -277,3 +278,82 @@ def install(cfg):
     @cfg.stub(api.specfn)
     def specfn(interp, f):
         return f
+
+    @cfg.stub(api.all_of)
+    def all_of(interp, *conds):
+        parts = [as_bool_term(interp, c) for c in conds]
+        return boolval(interp, simp(z3.And(*parts)) if parts else True)
+
+    @cfg.stub(api.any_of)
+    def any_of(interp, *conds):
+        parts = [as_bool_term(interp, c) for c in conds]
+        return boolval(interp, simp(z3.Or(*parts)) if parts else False)
+
+    @cfg.stub(api.is_list_of_str)
+    def is_list_of_str(interp, v):
+        if is_plain(v):
+            return False
+        if isinstance(v, HList) and v.mode == "c":
+            return boolval(interp, simp(z3.And(*[as_bool_term(interp, boolval(interp, interp.is_tag_term(x, ("vstr",)))) for x in v.items])) if v.items else True)
+        if isinstance(v, HList):
+            t = interp.term_of(v)
+        elif isinstance(v, SVal):
+            t = v.t
+        else:
+            return False
+        from .core import Nth
+        from .loops import nth_bridge
+        seq = A["l"](t)
+        nth_bridge(interp.ctx, seq)
+        i = z3.Const(B.fresh_bv("i"), IntSort)
+        return boolval(interp, z3.And(is_tag(t, "vlist"),
+                                      forall([i], z3.Implies(z3.And(i >= 0, i < z3.Length(seq)), is_tag(Nth(seq, i), "vstr")),
+                                                patterns=[Nth(seq, i)])))
+
+    @cfg.stub(api.is_url_str)
+    def is_url_str(interp, v):
+        if is_plain(v):
+            return api.is_url_str(v)
+        if not isinstance(v, SVal):
+            return False
+        s = A["s"](v.t)
+        return boolval(interp, z3.And(is_tag(v.t, "vstr"), z3.Or(z3.PrefixOf(z3.StringVal("http://"), s), z3.PrefixOf(z3.StringVal("https://"), s))))
+
+    @cfg.stub(api.is_strict_int)
+    def is_strict_int(interp, v):
+        if is_plain(v):
+            return api.is_strict_int(v)
+        if not isinstance(v, SVal):
+            return False
+        return boolval(interp, is_tag(v.t, "vint"))
+
+    @cfg.stub(api.spec_hmac)
+    def spec_hmac(interp, hname, key, msg):
+        from .trusted_crypto import HMAC, DIGEST_SIZE
+        if is_plain(key) and is_plain(msg):
+            return api.spec_hmac(hname, key, msg)
+        t = HMAC(z3.StringVal(hname), interp.bytes_term(key), interp.bytes_term(msg))
+        interp.ctx.axiom(z3.Length(t) == DIGEST_SIZE[hname], "HMAC output has the digest size of its hash")
+        return interp.mk("vbytes", t)
+
+    @cfg.stub(api.spec_json_ok)
+    def spec_json_ok(interp, b):
+        if is_plain(b):
+            return api.spec_json_ok(b)
+        return boolval(interp, S.JSONOk(interp.text_term(b)))
+
+    @cfg.stub(api.spec_json_parse)
+    def spec_json_parse(interp, b):
+        if is_plain(b):
+            return interp.wrap_live(api.spec_json_parse(b))
+        t = interp.text_term(b)
+        r = S.JSONParse(t)
+        interp.ctx.axiom(z3.Implies(S.JSONOk(t), z3.And(S.IsJSONValue(r), z3.Not(z3.Or(is_tag(r, "vabsent"), is_tag(r, "vbytes"), is_tag(r, "vobj"))))),
+                         "json.loads yields a value of the JSON data model")
+        return interp.from_term(r)
+
+    @cfg.stub(api.spec_utf8)
+    def spec_utf8(interp, s_):
+        if is_plain(s_):
+            return s_.encode("utf-8")
+        return interp.mk("vbytes", S.utf8_encode(interp.ctx, interp.str_term(s_)))
